@@ -27,4 +27,8 @@ def literal_value(value: Any) -> str:
         text = value.text.replace("\\", "\\\\").replace('"', '\\"')
         return f'QName("{text}")'
 
+    if isinstance(value, bytes) and type(value) is not bytes:
+        # XmlHexBinary, XmlBase64Binary: the subclass carries the encoding
+        return f"{type(value).__qualname__}({bytes(value)!r})"
+
     return repr(value)
